@@ -80,7 +80,7 @@ def conditional_table():
         "Conditional(Eq(a, 0), 1, a / (exp(a) - 1))", "Conditional(Eq(a, 1.5), 1, 1 / (a - 1.5))",
         "Conditional(Gt(a, 0), log(abs(a) + 1), 0)", "Conditional(Gt(a, b), sqrt(abs(a - b)), -sqrt(abs(b - a)))",
         "Conditional(Ge(a, 1), 1, 0) * Conditional(Lt(b, 1), 2, 3)", "Conditional(Ge(a, 1), 1, 0) + Conditional(Ge(a, 1), 0, 1)",
-        "Conditional(Gt(a, 1), 1, 2) ** 2", "Conditional(Gt(a, 1), 1.0, 2.0) ** -1", "a ** Conditional(Gt(b, 1), 2, 3)",
+        "Conditional(Gt(a, 1), 1, 2) ** 2", "Conditional(Gt(a, 1), 1.0, 2.0) ** -1", "a ** Conditional(Gt(b, 1), 2, 3)", "Conditional(Gt(a, 1), 1, 2) ** -1", "Conditional(Gt(a, 1), 10, 20) ** 20 * 1e-20", "Mod(a, 0.5 / b)", "Mod(a * 3, b / 2) / c",
         "exp(Conditional(Lt(a, 1), -a, a))", "Conditional(Gt(sin(a), 0.5), cos(a), sin(a))",
         "Conditional(And(Gt(a, 1), Lt(a, 2)), 1, 0)", "Conditional(Or(Lt(a, 1), Gt(a, 2)), 1, 0)",
         "Conditional(And(Ge(t, 1), Le(t, 2)), -p, 0)", "Conditional(And(Ge(Mod(t, 2), 1), Le(Mod(t, 2), 1.5)), k, 0)",
@@ -88,6 +88,7 @@ def conditional_table():
         "Conditional(Gt(a + 1, b), a, b)", "Conditional(Gt(2 * a, 3), a, b)", "Conditional(Lt(-a, -1), a, b)",
         "ContinuousConditional(Gt(a, 1), b, c, 1)", "ContinuousConditional(Lt(a, 1), b, c, 0.5)", "ContinuousConditional(Ge(a, b), 1, 0, 2.0)",
         "ContinuousConditional(Le(a - b, 0.5), a, -a, 0.25)", "ContinuousConditional(Gt(t, 1), p, k, 1) * a",
+        "ContinuousConditional(Gt(a, -40), b, c, 0.05)", "ContinuousConditional(Lt(a, 40), b, c, 0.05)", "exp(a - 800.0) * exp(800.0 - b)",
     ]
     return out
 
